@@ -194,7 +194,9 @@ func (s *handler) handleReader(ctx context.Context, r io.Reader, w io.Writer, rp
 	if bufferedRequest.Bytes()[0] == '[' && bufferedRequest.Bytes()[reqSize-1] == ']' {
 		var reqs []request
 
-		if err := json.NewDecoder(bufferedRequest).Decode(&reqs); err != nil {
+		// the body must be one JSON value: Unmarshal, unlike a Decoder, rejects
+		// anything but white space after it
+		if err := json.Unmarshal(bufferedRequest.Bytes(), &reqs); err != nil {
 			rpcError(wf, nil, rpcParseError, xerrors.New("Parse error"))
 			return
 		}
@@ -224,7 +226,7 @@ func (s *handler) handleReader(ctx context.Context, r io.Reader, w io.Writer, rp
 		bw.finish()
 	} else {
 		var req request
-		if err := json.NewDecoder(bufferedRequest).Decode(&req); err != nil {
+		if err := json.Unmarshal(bufferedRequest.Bytes(), &req); err != nil {
 			rpcError(wf, &req, rpcParseError, xerrors.New("Parse error"))
 			return
 		}
